@@ -58,8 +58,8 @@ def tiers(ctx):
     # (the first version ran 52 longer histories with a digest that cost 50 ms per step and took
     # 9-15 minutes on the loaded machine).
     if ctx.tier == "quick":
-        return [("full", 20, 22, 1), ("s1", 4, 16, 1), ("s1c", 8, 20, 1)]
-    return [("full", 500, 40, 1), ("s1", 60, 30, 1), ("s1c", 140, 36, 1)]
+        return [("full", 20, 22, 1), ("s1", 4, 16, 1), ("s1c", 8, 20, 1), ("ml", 8, 12, 1)]
+    return [("full", 500, 40, 1), ("s1", 60, 30, 1), ("s1c", 140, 36, 1), ("ml", 64, 24, 1)]
 
 
 def summarize(h, k):
@@ -187,7 +187,9 @@ def coverage(ctx, hs, res, known, sections, rule_extra=""):
         "distinct_nontrivial": nontrivial,
         "rule": "histories from one splitmix64 stream (VERIF_SEED) over 3 containers x 10 object IDs x epochs 0-10, headers fixed per ID "
                 "within a history (profiles: full = regular/tombstone/lock/link, EC parts, v1/v2 split children with embedded parent headers; "
-                "s1 = no relations); one evaluation = one operation followed by a full observation (bucket dump + all views for all 30 "
+                "s1 = no relations; ml = s1 after a scripted opening that gives ONE target three associated objects 3<5<7 with "
+                "mixed liveness in both ID orders -- live / expired / garbage-marked / redundant-marked LOCK, non-LOCK carrying the "
+                "association attribute -- then moves the epoch past the early expirations and attempts the tombstone); one evaluation = one operation followed by a full observation (bucket dump + all views for all 30 "
                 "addresses); distinct by digest of (dumped state, all view sections); non-trivial = at least two different non-absent "
                 "Exists classes among the 30 addresses" + rule_extra,
         "histories": len(hs),
